@@ -2,7 +2,7 @@
 """C02 — parsing untrusted bytes fails only with the documented parse errors."""
 from harness import core, clsrun, clsops
 
-LEAN_MODULES = ['CpProps.C02', 'CpProps.C02Hello', 'CpProps.C02Ssl2']
+LEAN_MODULES = ['CpProps.C02', 'CpProps.C02Hello', 'CpProps.C02Ssl2', 'CpProps.C02Ext']
 RULE = ('objects of every modelled class are built with the library constructors by type-directed generators (all enum '
         'members, unknown/GREASE code points, empty and maximal vectors, optional parts absent/present, boundary integers), '
         'composed, and the encodings are used as they are, with trailing bytes, concatenated, truncated at many offsets, '
